@@ -60,6 +60,8 @@ class ClassProgram:
             members.append("    public int f%d = tick(\"init f%d\", %d);" % (i, i, c["field"]))
             members.append("    public int h%d = tick(\"init h%d\", %d);" % (i, i, i))
             members.append("    public static int made = 0;")
+            if i == 0:
+                members.append("    public static int root = %d;" % (40 + c["field"]))
             if self.with_qubits and i == self.depth - 1:
                 members.append("    @tracked public qubit q;")
             if self.with_cycles and i == 0:
@@ -79,6 +81,8 @@ class ClassProgram:
                 members.append("    public function bump() -> int { made = made + 100; return made; }")
             if c["dtor"]:
                 members.append("    public destructor() -> void { echo(\"dtor %s\"); }" % name)
+            elif self.rng.random() < 0.4:
+                members.append("    public destructor() -> void = default;")
             hdr = "class %s%s {" % (name, (" extends " + base) if base else "")
             self.decls.append(hdr + "\n" + "\n".join(members) + "\n}")
         # overload helper: resolved from the static argument types
@@ -159,7 +163,12 @@ class ClassProgram:
                     m.append("echo(%s.getf());" % v)
                     e.append(str(self.cls[0]["field"]))
                     self.actions.append("f,%d" % j)
-                elif act < 0.75:
+                elif act < 0.72:
+                    # a static of C0 read through an instance (declared and dynamic class anywhere in the chain)
+                    m.append("echo(%s.root);" % v)
+                    e.append(str(40 + self.cls[0]["field"]))
+                    self.actions.append("rs,%d" % j)
+                elif act < 0.78:
                     # unqualified static in a base method names the base's slot, whatever the receiver's class
                     m.append("echo(%s.bump());" % v)
                     self.static_count[0] += 100
